@@ -8,6 +8,7 @@ import (
 	"context"
 	"encoding/hex"
 	"fmt"
+	"math"
 	"sort"
 	"strings"
 	"time"
@@ -147,6 +148,7 @@ type World struct {
 	Codec        string
 	LinkKeyBytes []byte
 	ShareOpts    bool
+	LogConc      uint                    // LogOptions.Concurrency of every log of the world (0 = default)
 	curProgress  chan iface.IPFSLogEntry // progress channel of the load being driven (nil: none)
 	sharedOpts   *ipfslog.LogOptions
 	sharedFetch  *entry.FetchOptions
@@ -200,7 +202,7 @@ func defaultIO() *cbor.IOCbor {
 }
 
 func (w *World) logOpts() *ipfslog.LogOptions {
-	return &ipfslog.LogOptions{ID: w.LogID, SortFn: w.sortFn(), IO: w.IO}
+	return &ipfslog.LogOptions{ID: w.LogID, SortFn: w.sortFn(), IO: w.IO, Concurrency: w.LogConc}
 }
 
 // loadOpts: the options value handed to the loaders. In half of the worlds the application keeps
@@ -290,6 +292,7 @@ func NewWorld(r *Run, p *Profile) *World {
 	}
 	w.setupCodec()
 	w.ShareOpts = r.Choose("share-load-options", 2) == 0
+	w.LogConc = []uint{0, 0, 0, 1, 2, 5, math.MaxUint, 1 << 63}[r.Choose("log-concurrency", 8)]
 	if w.Codec == "pb" {
 		w.F.crash = false // the legacy codec cannot read back what it writes for v2 entries: in-memory exchange only
 	}
@@ -470,6 +473,10 @@ func (w *World) doAppend() {
 			w.R.Probe("append-of-a-payload-a-sibling-replica-wrote-in-the-same-state")
 		}
 	}
+	if len(before) >= 2 && w.Codec != "pb" && w.R.Choose("append-via-entry-api", 4) == 0 {
+		w.appendViaEntryAPI(n, pl, before, maxT)
+		return
+	}
 	pin := false
 	if w.P.Check["C17"] {
 		pin = w.R.Bool("pin", 1, 4)
@@ -502,6 +509,45 @@ func (w *World) doAppend() {
 	if w.R.Bool("persist-hash", 1, 3) {
 		n.Durable = &durablePtr{kind: 1, c: e.GetHash(), set: copySet(n.Set)}
 	}
+}
+
+// appendViaEntryAPI: the application (or another implementation of the protocol) builds the next entry
+// itself - predecessors = the current heads, in an order of its own choosing, time = max+1 - and hands
+// it to its log the way entries from elsewhere arrive: by merging a one-entry log.
+func (w *World) appendViaEntryAPI(n *Node, pl []byte, heads []string, maxT int) {
+	r := w.R
+	order := append([]string(nil), heads...)
+	for i := len(order) - 1; i > 0; i-- {
+		j := r.Choose("next-order", i+1)
+		order[i], order[j] = order[j], order[i]
+	}
+	var next []cid.Cid
+	for _, h := range order {
+		next = append(next, w.Cids[h])
+	}
+	t := maxT + 1
+	if ct := n.Log.Clock.GetTime(); ct >= t {
+		t = ct + 1
+	}
+	tmpl := &entry.Entry{LogID: w.LogID, Payload: pl, Next: next, Refs: []cid.Cid{}, Clock: entry.NewLamportClock(n.W.ID.PublicKey, t)}
+	e, err := entry.CreateEntryWithIO(w.ctx, w.St, n.W.ID, tmpl, nil, w.IO)
+	if err != nil {
+		r.Violate(w.P.Prop+":create-entry", "CreateEntryWithIO failed for an entry on %d heads: %v", len(next), err)
+	}
+	me := w.register(e)
+	o := w.logOpts()
+	om := entry.NewOrderedMap()
+	om.Set(me.Hash, e)
+	o.Entries = om
+	o.Heads = []iface.IPFSLogEntry{e}
+	carrier := w.newLog(n.W, o)
+	if _, err := n.Log.Join(carrier, -1); err != nil {
+		r.Violate(w.P.Prop+":join-error", "merging an honest entry built through the entry API (predecessors: the current heads) failed: %v", err)
+	}
+	n.Set[me.Hash] = true
+	r.Probe("entry-built-by-the-application-on-several-heads")
+	r.Logf("append n%d via the entry API -> %s t=%d next=%v", n.Idx, w.M.Name(me.Hash), me.Time, w.M.Names(me.Next))
+	w.afterAppend(n, e, me)
 }
 
 // twinsFor: entries of n's writer that n does not hold and that were appended on exactly the heads n has now.
